@@ -69,6 +69,36 @@ func (w *World) verifyUnit(u *Unit) *Exec {
 		fr.regs[p] = v
 		fr.params[name] = v
 	}
+	// closures verified on their own: every captured variable is an arbitrary cell
+	for _, fv := range fn.FreeVars {
+		pt, ok := fv.Type().(*types.Pointer)
+		if !ok {
+			continue
+		}
+		el := pt.Elem()
+		if e.isModelStruct(el) {
+			v := e.fresh(st, "fv."+fv.Name(), fv.Type())
+			e.sc.assume("true", "(not (= "+v.T+" 0))")
+			v.NonNil = true
+			fr.freeVars[fv] = v
+			continue
+		}
+		ref := e.fresh(st, "fvbox."+fv.Name(), fv.Type())
+		e.sc.assume("true", "(not (= "+ref.T+" 0))")
+		loc := &Loc{Kind: LBox, Base: ref.T, Typ: el}
+		if isArrayT(el) {
+			loc.Kind = LArray
+		}
+		fr.freeVars[fv] = Val{T: ref.T, Typ: fv.Type(), NonNil: true, Loc: loc}
+		if !isArrayT(el) {
+			cur := e.load(st, loc)
+			e.sc.assume("true", e.sc.rangeFact(cur, el))
+			e.sc.assume("true", e.allocFact(st, cur, el))
+			if _, dup := fr.params[fv.Name()]; !dup {
+				fr.params[fv.Name()] = Val{T: cur, Typ: el}
+			}
+		}
+	}
 	fr.entry = st.clone()
 	env := &SpecEnv{e: e, fr: fr, st: st, old: fr.entry, vars: fr.params, oldVars: fr.params}
 	if u.FC != nil {
